@@ -70,6 +70,8 @@ func NewInner(d DevDesc) z80.Memory {
 		return z80.MapMemory{}
 	case "dumb":
 		return z80.DumbMemory(make([]uint8, d.Len))
+	case "tinycpm":
+		return newTinyCPMMemory()
 	}
 	panic("bad device")
 }
@@ -206,6 +208,10 @@ type Machine struct {
 	IOD  IODesc
 	lastN, lastI int
 	Acc          int
+	Con          []int // bytes that reached the tinycpm console writer
+	Warn         int   // warnings logged by the tinycpm IO
+	conMark      int
+	warnMark     int
 }
 
 func b2i(b bool) int {
@@ -298,6 +304,9 @@ func NewMachine(is *InitSpec) *Machine {
 	case "nil":
 	case "hash":
 		m.IO = &RecIO{Desc: is.IO, Acc: &m.Acc}
+		cpu.IO = m.IO
+	case "console":
+		m.IO = &RecIO{Desc: is.IO, Inner: newTinyCPMIO(m), Acc: &m.Acc}
 		cpu.IO = m.IO
 	case "dumb":
 		dio := z80.DumbIO(make([]uint8, is.IO.Len))
@@ -500,8 +509,13 @@ func (m *Machine) RunAndEmit(w *bufio.Writer, rs *RunSpec, watchdog time.Duratio
 	if sched == nil {
 		sched = []int{}
 	}
-	fmt.Fprintf(w, `{"e":"r","bp":%s,"sched":%s,"cancel":%d,"err":"%s","nacc":%d,"r":%s,"h":%d,"md":%s,"pio":%s,"hc":[%d,%d],"pend":%s}`+"\n",
+	extra := ""
+	if m.IOD.Kind == "console" {
+		extra = fmt.Sprintf(`,"con":%s,"warn":%d`, jInts(m.Con[m.conMark:]), m.Warn-m.warnMark)
+		m.conMark, m.warnMark = len(m.Con), m.Warn
+	}
+	fmt.Fprintf(w, `{"e":"r","bp":%s,"sched":%s,"cancel":%d,"err":"%s","nacc":%d,"r":%s,"h":%d,"md":%s,"pio":%s,"hc":[%d,%d],"pend":%s%s}`+"\n",
 		jInts(bp), jInts(sched), rs.Cancel, errs, m.Acc, jInts(r[:]), b2i(m.CPU.HALT), jPairs(m.Mem.Diff()), jTriples(pio),
-		m.H.N-m.lastN, m.H.I-m.lastI, jInts(PendEnc(m.CPU.Interrupt)))
+		m.H.N-m.lastN, m.H.I-m.lastI, jInts(PendEnc(m.CPU.Interrupt)), extra)
 	return true
 }
